@@ -241,3 +241,23 @@ mtext("C05",
       "trusted: ownership model (documented step order: destination reset first), sim-heap event log",
       "deterministic simulation (single task): seeded histories + malloc fault injection vs ownership model, conservation over allocator events",
       "DESIGN.md 4.C05")
+
+check("C06", "exploration",
+      [dict(world="memc", mode=6, variants={"rel": 0.9, "asan": 0.1}, quick=330000, thorough=33000000)],
+      "one evaluation = one seeded schedule of one seeded scenario (2-4 tasks, 1-6 operations each on their own shared/weak pointer objects, 1-2 allocations, seeded initial reference configuration, "
+      "one of three scheduling strategies: uniform random / PCT-style priorities with 0-3 change points / sticky with a seeded switch probability); every atomic operation, sched_yield, library malloc/free and clear-callback entry is a scheduling point; "
+      "distinct = distinct plan hash (scenario + scheduler seed); non-trivial = at least one preemption of a task in the middle of a library operation; distinct interleavings are measured separately as distinct (task, source line) sequences",
+      ["src/memory.c (compiled with the shipped flags against the shadowed <stdatomic.h>/<sched.h>)", "include/cstl/memory.h"],
+      stubs=["threads (ucontext fibers; the seeded scheduler decides who runs at every scheduling point)", "C11 atomics (real compiler builtins behind a scheduling point)", "sched_yield (back-of-run-queue rule)"],
+      required_probes=["preempt", "sched_yield_executed", "c06_lock_success", "c06_lock_fail", "c06_lock_after_death", "c06_share", "c06_touch_owned", "c06_lin_checked", "c06_starts_with_one_owner"],
+      assumptions=["sequentially consistent interleavings of the library's atomic steps only (all atomics in memory.c are seq_cst); weaker hardware orders are not simulated",
+                   "seeded schedule search, not exhaustive enumeration with visited-state pruning: the 'every interleaving' quantifier is sampled",
+                   "atomicity of what unique() observes against concurrent resets is not demanded (the property does not promise it)"])
+mtext("C06",
+      "The property this technique was made for. Cooperative fibers stand in for threads; a seeded scheduler decides every interleaving at the granularity of the library's own atomic operations (shadowed <stdatomic.h>, no source change), plus sched_yield, library malloc/free and the clear callback. "
+      "Oracle over the global event sequence: conservation (clear once, payload freed once and after clear, bookkeeping freed once and last), no atomic access to a freed block (checked at the access), never-earlier (no clear while a shared pointer that has returned from share/lock and not yet entered reset exists), "
+      "a successful lock/share returns live memory, a lock may fail only if no owner was stable over the whole call, bounded liveness under a fair-yield rule (64*(ops+K) steps), the exact sequential end state after an all-reset epilogue, and Wing-Gong linearizability of the share/lock/reset results against an owner-count model. "
+      "330k schedules quick / 33M thorough over rel and ASan builds. Sampling: exhaustive exploration with visited-state pruning is model checking and is not claimed.",
+      "trusted: fiber scheduler, shim macros (comma expression: scheduling point then the real builtin with the requested order), interval-based owner oracle, linearizability checker (<= 24 operations per history)",
+      "deterministic simulation: seeded scheduler over cooperative fibers at atomic-operation granularity; invariants on the event sequence + linearizability check against a sequential owner-count model",
+      "DESIGN.md 4.C06")
